@@ -26,17 +26,26 @@ def main():
           exact.make_model("free2", 2, [0, 1], []),                                # non-interacting
           exact.make_model("deg2", 2, [0, 0], []),                                 # atomic limit, maximal degeneracy
           exact.make_model("rot2", 2, [1, -2], [(0, 1, 3)], rot=[(0, 1)], layout=exact.LAYOUTS[2][1]),
-          exact.make_model("bog2", 2, [1, -1], [(0, 1, 2)], bog=[(0, 1)])]
-    ms3 = [exact.make_model("three", 3, [1, -2, 0], [(0, 1, 3), (1, 2, -1)], rot=[(0, 2)], layout=exact.LAYOUTS[3][0]),
+          exact.make_model("bog2", 2, [1, -1], [(0, 1, 2)], bog=[(0, 1)]),
+          # non-interacting AND rotated: blocks larger than 1x1 with coinciding level differences, so resonant terms are merged
+          exact.make_model("freerot2", 2, [1, -2], [], rot=[(0, 1)], layout=exact.LAYOUTS[2][1]),
+          exact.make_model("degrot2", 2, [1, 1], [], rot=[(0, 1)], layout=exact.LAYOUTS[2][2])]
+    ms3 = [exact.make_model("free3rot", 3, [1, -1, 0], [], rot=[(0, 1)], layout=exact.LAYOUTS[3][4]),
+           exact.make_model("three", 3, [1, -2, 0], [(0, 1, 3), (1, 2, -1)], rot=[(0, 2)], layout=exact.LAYOUTS[3][0]),
            exact.make_model("three0", 3, [0, 0, 1], [(0, 1, 1)], layout=exact.LAYOUTS[3][1])]
     if thorough:
         ms += [exact.random_model(rng, "R%d" % k, 2) for k in range(6)]
         ms3 += [exact.random_model(rng, "S%d" % k, 3) for k in range(4)] + [exact.random_model(rng, "T%d" % k, 4) for k in range(2)]
     for m in ms:
         m["chi"] = [list(q) for q in itertools.product(range(2), repeat=4)]
+    # three equal levels, non-interacting: many Lehmann multi-terms share their three poles and are merged in the term lists
+    ms3.insert(0, exact.make_model("deg3", 3, [1, 1, 1], [], layout=exact.LAYOUTS[3][2]))
+    ms3.insert(1, exact.make_model("deg3rot", 3, [1, 1, -2], [], rot=[(0, 2)], layout=exact.LAYOUTS[3][3]))
     for m in ms3:
-        allq = [list(q) for q in itertools.product(range(m["M"]), repeat=4)]
-        m["chi"] = rng.sample(allq, 10 if not thorough else 40)
+        M3 = m["M"]
+        allq = [list(q) for q in itertools.product(range(M3), repeat=4)]
+        structured = [[i, i, i, i] for i in range(M3)] + [[i, j, j, i] for i in range(M3) for j in range(M3) if i != j][:4] + [[i, j, i, j] for i in range(M3) for j in range(M3) if i != j][:2]
+        m["chi"] = structured + rng.sample(allq, 6 if not thorough else 40)
     ms = ms + ms3
     res, pred = exact.evaluate(ms, "C02/gen", timeout=3000)
     c.add_tlc(res, "LehmannGen")
